@@ -228,3 +228,17 @@ def show_wire(frames_list):
 
     tok = "+".join(wire_tok(fr) for fr in frames_list)
     return gen.show_bytes_tok(tok) if tok else "."
+
+
+def wake_contract(case, lines):
+    """the Future contract, judged on the implementation's trace: `woken f` directly followed by `poll f` —
+    if the poll returns Ready although the future was Pending before and its own waker has not fired since, a real
+    executor would never have polled it again (lost wake-up)"""
+    ops = list(zip(case.ops, lines[1:]))
+    for i in range(len(ops) - 1):
+        op, l = ops[i]
+        nop, nl = ops[i + 1]
+        if op.startswith("woken ") and l == "woken no" and nop == "poll " + op.split()[1] and nl.startswith("ready "):
+            return (f"future {op.split()[1]} was Pending, became ready ({nl[:60]}) but its waker was never woken: "
+                    "on an executor this call hangs (lost wake-up)")
+    return None
